@@ -102,12 +102,13 @@ def erfinv(x: float) -> float:
             2008
     """
     sign = np.sign(x)
-    x = np.log((1.0 - x) * (1.0 + x))
+    x = np.log1p(-x * x)  # log((1 - x) * (1 + x)), accurate for small x
 
     tt1 = 2.0 / (np.pi * 0.14) + 0.5 * x
     tt2 = 1.0 / 0.14 * x
 
-    return sign * np.sqrt(-tt1 + np.sqrt(tt1 * tt1 - tt2))
+    # -tt1 + sqrt(tt1^2 - tt2), written without cancellation for small x
+    return sign * np.sqrt(-tt2 / (tt1 + np.sqrt(tt1 * tt1 - tt2)))
 
 
 def gamma(x: float) -> float:
